@@ -488,6 +488,166 @@ fn matrix_of(room: &vh::database::room::Room, scn: &Scn, dates: &[i64]) -> Value
     json!({"yes": yes})
 }
 
+/// A candidate room definition assembled from the honest export of `from` plus one adversarial change signed
+/// by `by`, offered to `to`; reports whether it was accepted and the decisions of the room `to` ends with
+pub async fn forge(world: &mut World, scn: &mut Scn, step: &Value) -> Result<Value, String> {
+    use vh::database::authorisation_service::RoomAuthorisations;
+    use vh::database::edge::Edge;
+    use vh::database::node::Node;
+    use vh::database::room_node::{EntityRightNode, RoomNode, UserNode};
+    use vh::database::system_entities as se;
+    let room = scn.names.rooms.get(&s(step, "room")).cloned().ok_or("unknown room")?;
+    let dates: Vec<i64> = arr(step, "dates").iter().map(|d| d.as_i64().unwrap()).collect();
+    let kind = s(step, "kind");
+    let by = s(step, "by");
+    let key = signing_key_of(&by);
+    let by_key = scn.user_key.get(&by).cloned().ok_or("unknown attacker")?;
+    let now = vh::date_utils::now();
+    let src = &world.peers[&s(step, "from")];
+    let rn = src.db.get_room_node(room).await.map_err(|e| e.to_string())?.ok_or("no export")?;
+    let bytes = vh::bincode::serialize(&rn).map_err(|e| e.to_string())?;
+    let mut rn: RoomNode = vh::bincode::deserialize(&bytes).map_err(|e| e.to_string())?;
+    let group = step.get("g").and_then(|g| g.as_str()).unwrap_or("g1").to_string();
+    let gid = scn.auth_ids.get(&(s(step, "room"), group)).cloned().ok_or("unknown group")?;
+    let user_node = |k: &Vec<u8>, enabled: bool| -> Result<UserNode, String> {
+        let json = format!("{{\"{}\":\"{}\",\"{}\":{}}}", se::USER_VERIFYING_KEY_SHORT, vh::security::base64_encode(k), se::USER_ENABLED_SHORT, enabled);
+        let mut n = Node { id: vh::security::new_uid(), room_id: None, cdate: now, mdate: now, _entity: se::USER_AUTH_ENT_SHORT.to_string(),
+            _json: Some(json), _binary: None, verifying_key: vec![], _signature: vec![], _local_id: None };
+        n.sign(&key).map_err(|e| e.to_string())?;
+        Ok(UserNode { node: n })
+    };
+    let edge = |src: Uid, src_ent: &str, label: &str, dest: Uid, cdate: i64| -> Result<Edge, String> {
+        let mut e = Edge { src, src_entity: src_ent.to_string(), label: label.to_string(), dest, cdate, verifying_key: vec![], signature: vec![] };
+        e.sign(&key).map_err(|e| e.to_string())?;
+        Ok(e)
+    };
+    let mut applicable = true;
+    match kind.as_str() {
+        "honest" => {}
+        "user_to_admin" => {
+            // an entry the admin signed for the users list of a group, re-placed in the admin list by a reference the attacker signs
+            let found = rn.auth_nodes.iter().flat_map(|a| a.user_nodes.iter()).find(|u| {
+                u.node._json.as_ref().map(|j| j.contains(&vh::security::base64_encode(&by_key)) && j.contains("true")).unwrap_or(false)
+            }).cloned();
+            match found {
+                Some(u) => {
+                    let e = edge(rn.node.id, se::ROOM_ENT_SHORT, se::ROOM_ADMIN_FIELD_SHORT, u.node.id, u.node.mdate)?;
+                    rn.admin_edges.push(e);
+                    rn.admin_nodes.push(u);
+                }
+                None => applicable = false,
+            }
+        }
+        "self_admin" => {
+            let u = user_node(&by_key, true)?;
+            rn.admin_edges.push(edge(rn.node.id, se::ROOM_ENT_SHORT, se::ROOM_ADMIN_FIELD_SHORT, u.node.id, now)?);
+            rn.admin_nodes.push(u);
+        }
+        "self_right" => {
+            let json = format!("{{\"{}\":\"*\",\"{}\":true,\"{}\":true}}", se::RIGHT_ENTITY_SHORT, se::RIGHT_MUTATE_SELF_SHORT, se::RIGHT_MUTATE_ALL_SHORT);
+            let mut n = Node { id: vh::security::new_uid(), room_id: None, cdate: now, mdate: now, _entity: se::ENTITY_RIGHT_ENT_SHORT.to_string(),
+                _json: Some(json), _binary: None, verifying_key: vec![], _signature: vec![], _local_id: None };
+            n.sign(&key).map_err(|e| e.to_string())?;
+            match rn.auth_nodes.iter_mut().find(|a| a.node.id == gid) {
+                Some(a) => {
+                    a.right_edges.push(edge(a.node.id, se::AUTHORISATION_ENT_SHORT, se::AUTH_RIGHTS_FIELD_SHORT, n.id, now)?);
+                    a.right_nodes.push(EntityRightNode { node: n });
+                }
+                None => applicable = false,
+            }
+        }
+        "self_user" | "add_user" => {
+            // the attacker adds a user entry (itself, or the user named by "user") to the group, signed with its own key
+            let target = if kind == "self_user" { by_key.clone() } else { scn.user_key.get(&s(step, "user")).cloned().ok_or("unknown user")? };
+            let u = user_node(&target, true)?;
+            match rn.auth_nodes.iter_mut().find(|a| a.node.id == gid) {
+                Some(a) => {
+                    a.user_edges.push(edge(a.node.id, se::AUTHORISATION_ENT_SHORT, se::AUTH_USER_FIELD_SHORT, u.node.id, now)?);
+                    a.user_nodes.push(u);
+                }
+                None => applicable = false,
+            }
+        }
+        "self_uadmin" => {
+            let u = user_node(&by_key, true)?;
+            match rn.auth_nodes.iter_mut().find(|a| a.node.id == gid) {
+                Some(a) => {
+                    a.user_admin_edges.push(edge(a.node.id, se::AUTHORISATION_ENT_SHORT, se::AUTH_USER_ADMIN_FIELD_SHORT, u.node.id, now)?);
+                    a.user_admin_nodes.push(u);
+                }
+                None => applicable = false,
+            }
+        }
+        "drop_entry" => {
+            // omission of the newest user entry of the group
+            match rn.auth_nodes.iter_mut().find(|a| a.node.id == gid) {
+                Some(a) if !a.user_nodes.is_empty() => {
+                    let (idx, _) = a.user_nodes.iter().enumerate().max_by_key(|(_, u)| u.node.mdate).unwrap();
+                    let gone = a.user_nodes.remove(idx);
+                    a.user_edges.retain(|e| e.dest != gone.node.id);
+                }
+                _ => applicable = false,
+            }
+        }
+        "alter_entry" => {
+            // an existing user entry re-written (enabled flag flipped) and re-signed by the attacker under the same id
+            match rn.auth_nodes.iter_mut().find(|a| a.node.id == gid) {
+                Some(a) if !a.user_nodes.is_empty() => {
+                    let u = &mut a.user_nodes[0];
+                    let j = u.node._json.clone().unwrap_or_default();
+                    u.node._json = Some(if j.contains("true") { j.replace("true", "false") } else { j.replace("false", "true") });
+                    u.node.sign(&key).map_err(|e| e.to_string())?;
+                }
+                _ => applicable = false,
+            }
+        }
+        other => return Err(format!("unknown forge kind {other}")),
+    }
+    let dst = &world.peers[&s(step, "to")];
+    let accepted = if !applicable {
+        json!("n/a")
+    } else {
+        match dst.services.signature_verification.verify_room_node(rn).await {
+            Ok(rn) => match dst.db.add_room_node(rn).await {
+                Ok(_) => json!("accepted"),
+                Err(e) => json!(format!("refused: {e}").chars().take(90).collect::<String>()),
+            },
+            Err(e) => json!(format!("refused: signature {e}").chars().take(90).collect::<String>()),
+        }
+    };
+    dst.write_barrier().await;
+    // decisions of the room the target now stores (start-up path) and holds in memory (its last room-modified event)
+    let stored = match dst.db.query(RoomAuthorisations::LOAD_QUERY, None).await {
+        Ok(jsn) => {
+            let mut ra = RoomAuthorisations { signing_key: signing_key_of(&dst.user), rooms: HashMap::new(), max_node_size: 1 << 20 };
+            match ra.load_json(&jsn) {
+                Ok(_) => match ra.rooms.get(&room) { Some(r) => matrix_of(r, scn, &dates), None => json!({"err": "room not stored"}) },
+                Err(e) => json!({"err": e.to_string()}),
+            }
+        }
+        Err(e) => json!({"err": e.to_string()}),
+    };
+    let tname = s(step, "to");
+    let _ = dst.services.events.subcribe().await;
+    let mut live = scn.live_rooms.get(&(tname.clone(), room)).cloned();
+    let rx = world.rx.get_mut(&tname).unwrap();
+    loop {
+        match rx.try_recv() {
+            Ok(discret::Event::RoomModified(r)) => {
+                scn.live_rooms.insert((tname.clone(), r.id), r.clone());
+                if r.id == room {
+                    live = Some(r);
+                }
+            }
+            Ok(_) => {}
+            Err(tokio::sync::broadcast::error::TryRecvError::Lagged(_)) => {}
+            Err(_) => break,
+        }
+    }
+    let live = match live { Some(r) => matrix_of(&r, scn, &dates), None => json!({"err": "no room-modified event"}) };
+    Ok(json!({"verdict": accepted, "stored": stored, "live": live}))
+}
+
 /// the same room obtained through every construction path
 pub async fn room_paths(world: &mut World, scn: &mut Scn, step: &Value) -> Result<Value, String> {
     use vh::database::authorisation_service::RoomAuthorisations;
@@ -1088,6 +1248,12 @@ pub async fn run_step(world: &mut World, scn: &mut Scn, step: &Value, out: &mut 
                 Ok(v) => {
                     ev["outcome"] = v;
                 }
+                Err(e) => res = Err(e),
+            }
+        }
+        "forge" => {
+            match forge(world, scn, step).await {
+                Ok(v) => ev["out"] = v,
                 Err(e) => res = Err(e),
             }
         }
